@@ -746,42 +746,134 @@ func c20r3(p *Program, r *Report) {
 // `if err != nil`, the error branch returns a non-nil last result.
 func errorBranchReturnsErr(p *Program, fi *FuncInfo, c *ast.CallExpr) (bool, string) {
 	info := fi.Pkg.TypesInfo
-	var ok bool
-	why := "the error result is never checked"
-	ast.Inspect(fi.Decl.Body, func(n ast.Node) bool {
-		ifs, isIf := n.(*ast.IfStmt)
-		if !isIf {
-			return true
+	// the variable the call's error is bound to
+	errName := ""
+	if fn := calleeOf(info, c); fn != nil {
+		if sig, isSig := fn.Type().(*types.Signature); isSig && sig.Results().Len() > 0 {
+			errName = resultVarOf(p, c, sig.Results().Len()-1)
 		}
-		call, trueErr := p.errCheckOf(info, ifs.Cond)
-		if call != c {
-			return true
-		}
-		branch := ifs.Body.List
-		if !trueErr {
-			if b, isB := ifs.Else.(*ast.BlockStmt); isB {
-				branch = b.List
-			} else {
-				branch = nil
+	}
+	if errName == "" || errName == "_" {
+		return false, "the error result is never checked"
+	}
+	def := p.stmtOf(c, fi)
+	// errNil: what the branch condition e, having come out val, says about errName == nil (1 nil, -1 not nil, 0 nothing)
+	var errNil func(e ast.Expr, val bool) int
+	errNil = func(e ast.Expr, val bool) int {
+		e = ast.Unparen(e)
+		switch x := e.(type) {
+		case *ast.UnaryExpr:
+			if x.Op == token.NOT {
+				return errNil(x.X, !val)
+			}
+		case *ast.BinaryExpr:
+			switch x.Op {
+			case token.LAND:
+				if val {
+					if k := errNil(x.X, true); k != 0 {
+						return k
+					}
+					return errNil(x.Y, true)
+				}
+			case token.LOR:
+				if !val {
+					if k := errNil(x.X, false); k != 0 {
+						return k
+					}
+					return errNil(x.Y, false)
+				}
+			case token.EQL, token.NEQ:
+				var o ast.Expr
+				if isNil(info, x.Y) {
+					o = x.X
+				} else if isNil(info, x.X) {
+					o = x.Y
+				}
+				if id, isId := ast.Unparen(o).(*ast.Ident); o != nil && isId && id.Name == errName {
+					if val == (x.Op == token.EQL) {
+						return 1
+					}
+					return -1
+				}
 			}
 		}
-		if len(branch) == 0 {
-			why = "the error branch is empty"
-			return true
+		return 0
+	}
+	// 0: not yet called / error known nil, 1: the call's error may be non-nil and has not been reported,
+	// 2: it was overwritten while pending
+	g := p.GraphOf(fi)
+	sol := Solve(g, Lattice[int]{
+		Join: func(a, b int) int {
+			if a > b {
+				return a
+			}
+			return b
+		},
+		Eq: func(a, b int) bool { return a == b },
+		Step: func(s int, st Step) int {
+			switch st.Kind {
+			case StCond:
+				if s == 1 && errNil(st.Node.(ast.Expr), st.Val) == 1 {
+					return 0
+				}
+			case StNode:
+				if st.Node == ast.Node(def) {
+					if s == 2 {
+						return 2
+					}
+					return 1
+				}
+				if s == 1 {
+					for _, l := range assignedLHS(st.Node) {
+						if id, isId := l.(*ast.Ident); isId && id.Name == errName {
+							return 2
+						}
+					}
+				}
+			}
+			return s
+		},
+	})
+	checked := false
+	ast.Inspect(fi.Decl.Body, func(n ast.Node) bool {
+		if ifs, isIf := n.(*ast.IfStmt); isIf && errNil(ifs.Cond, true) != 0 {
+			checked = true
 		}
-		rs, isRet := branch[len(branch)-1].(*ast.ReturnStmt)
-		if !isRet || len(rs.Results) == 0 {
-			why = "the error branch does not return"
-			return true
-		}
-		last := rs.Results[len(rs.Results)-1]
-		if isNil(info, last) {
-			why = "the error branch returns a nil error"
-			return true
-		}
-		ok = true
 		return true
 	})
+	if !checked {
+		return false, "the error result is never checked"
+	}
+	ok, why := true, ""
+	nexit := 0
+	for _, e := range g.Exits() {
+		if e.Kind == ExitPanic {
+			continue
+		}
+		s, reach := sol.Before(e.Node)
+		if e.Node == nil {
+			s, reach = sol.AtExit(e)
+		}
+		if !reach || s == 0 {
+			continue
+		}
+		nexit++
+		if s == 2 {
+			ok, why = false, "the error is overwritten before it is examined"
+			continue
+		}
+		rs, isRet := e.Node.(*ast.ReturnStmt)
+		if !isRet || len(rs.Results) == 0 {
+			ok, why = false, "a path ends without returning the error"
+			continue
+		}
+		if isNil(info, rs.Results[len(rs.Results)-1]) {
+			ok, why = false, "the error branch returns a nil error"
+		}
+	}
+	if nexit == 0 {
+		return false, "the error branch does not return"
+	}
 	return ok, why
 }
 
@@ -1004,24 +1096,105 @@ func c20r5(p *Program, r *Report) {
 	listParam := paramObj(ainfo, ap.Decl.Type, 1)
 	classParam := paramObj(ainfo, ap.Decl.Type, 0)
 	nfb := 0
+	emptyKnown := func(n ast.Node) bool {
+		f, ok := afacts.Before(p.stmtOf(n, ap))
+		if !ok || listParam == nil {
+			return false
+		}
+		lenE := &ast.CallExpr{Fun: ast.NewIdent("len"), Args: []ast.Expr{ast.NewIdent(listParam.Name())}}
+		if v, known := f.Known(&ast.BinaryExpr{X: lenE, Op: token.EQL, Y: &ast.BasicLit{Kind: token.INT, Value: "0"}}); known && v {
+			return true
+		}
+		if v, known := f.Known(&ast.BinaryExpr{X: &ast.BasicLit{Kind: token.INT, Value: "0"}, Op: token.LSS, Y: lenE}); known && !v {
+			return true
+		}
+		if v, known := f.KnownStr(listParam.Name() + " == nil"); known && v {
+			return true
+		}
+		return false
+	}
+	// the built-in list (a package-level variable) is consulted only where the caller's list is known to be empty
 	ast.Inspect(ap.Decl.Body, func(x ast.Node) bool {
-		as, ok := x.(*ast.AssignStmt)
-		if !ok || len(as.Lhs) != 1 || !isIdentOf(ainfo, as.Lhs[0], listParam) {
+		id, ok := x.(*ast.Ident)
+		if !ok {
+			return true
+		}
+		v, isVar := ainfo.Uses[id].(*types.Var)
+		if !isVar || v.Pkg() == nil || v.Parent() != v.Pkg().Scope() {
 			return true
 		}
 		nfb++
-		// enclosing if tests len(list) == 0
-		ifs, _ := p.enclosing(as, ap.Decl, func(m ast.Node) bool { _, ok := m.(*ast.IfStmt); return ok }).(*ast.IfStmt)
-		okEmpty := ifs != nil && posWithin(ifs.Body, as.Pos()) && (exprStr(ifs.Cond) == "len("+listParam.Name()+") == 0" || exprStr(ifs.Cond) == listParam.Name()+" == nil")
-		r.Check(okEmpty, as, "approve falls back to the built-in list only when the caller's list is empty", "under len(list) == 0", "the caller's allow-list is replaced by the built-in default although it is not empty (or unconditionally)")
+		r.Check(emptyKnown(id), id, "approve falls back to the built-in list only when the caller's list is empty", "under len(list) == 0", "the caller's allow-list is replaced by the built-in default although it is not empty (or unconditionally)")
 		return true
 	})
+	// what approve may answer true for: an equality of the class with an entry, or membership of the class in a set
+	isClass := func(e ast.Expr) bool { return classParam != nil && isIdentOf(ainfo, e, classParam) }
+	var membership func(e ast.Expr, depth int) bool
+	membership = func(e ast.Expr, depth int) bool {
+		e = ast.Unparen(e)
+		if tv, has := ainfo.Types[e]; has && tv.Value != nil {
+			return tv.Value.String() == "false"
+		}
+		switch x := e.(type) {
+		case *ast.BinaryExpr:
+			switch x.Op {
+			case token.EQL:
+				return isClass(x.X) != isClass(x.Y)
+			case token.LOR, token.LAND:
+				return membership(x.X, depth) && membership(x.Y, depth)
+			}
+		case *ast.Ident:
+			if depth > 3 {
+				return false
+			}
+			obj := ainfo.Uses[x]
+			if obj == nil {
+				return false
+			}
+			ndef, okAll := 0, true
+			ast.Inspect(ap.Decl.Body, func(y ast.Node) bool {
+				as, isAs := y.(*ast.AssignStmt)
+				if !isAs {
+					return true
+				}
+				for i, l := range as.Lhs {
+					lid, isId := l.(*ast.Ident)
+					if !isId || (ainfo.Defs[lid] != obj && ainfo.Uses[lid] != obj) {
+						continue
+					}
+					ndef++
+					switch {
+					case len(as.Lhs) == 2 && len(as.Rhs) == 1 && i == 1:
+						// _, ok := set[class]
+						ix, isIx := ast.Unparen(as.Rhs[0]).(*ast.IndexExpr)
+						if !isIx || !isClass(ix.Index) {
+							okAll = false
+						} else if _, isMap := ainfo.TypeOf(ix.X).Underlying().(*types.Map); !isMap {
+							okAll = false
+						}
+					case len(as.Lhs) == len(as.Rhs):
+						if !membership(as.Rhs[i], depth+1) {
+							okAll = false
+						}
+					default:
+						okAll = false
+					}
+				}
+				return true
+			})
+			return ndef > 0 && okAll
+		}
+		return false
+	}
 	for _, e := range ag.Exits() {
 		rs, ok := e.Node.(*ast.ReturnStmt)
 		if !ok || len(rs.Results) != 1 {
 			continue
 		}
-		if v, ok := ainfo.Types[rs.Results[0]]; ok && v.Value != nil && v.Value.String() == "true" {
+		if v, ok := ainfo.Types[rs.Results[0]]; ok && v.Value != nil {
+			if v.Value.String() != "true" {
+				continue
+			}
 			f, _ := afacts.Before(rs)
 			eq := false
 			for atom, val := range f.m {
@@ -1030,7 +1203,9 @@ func c20r5(p *Program, r *Report) {
 				}
 			}
 			r.Check(eq, rs, "approve accepts only a class equal to a list entry", "return true dominated by authenticator == entry", "approve returns true without an equality match against the allow-list")
+			continue
 		}
+		r.Check(membership(rs.Results[0], 0), rs, "approve accepts only a class equal to a list entry", "the answer is an equality with / membership of the class in the list", "approve returns true without an equality match against the allow-list")
 	}
 	_ = nfb
 }
